@@ -180,6 +180,33 @@ def _features(m, spec, desc, ctx, rng, feat):
                     break
             if bad:
                 ctx.violation('densify_mismatch', dict(desc, request=req), 'get_features: ' + bad, f)
+    # history: the caller refills ONE spike-id buffer in place between requests on the same model
+    k = int(rng.integers(2, min(6, ns) + 1))
+    buf = np.zeros(k, dtype=np.int64)
+    ch = np.arange(nc)
+    for q in range(3):
+        buf[:] = np.sort(rng.permutation(ns)[:k])
+        ctx.count(1, key=hkey(tuple(desc['seed']), 'buffer', q), nontrivial=True, cell=('get_features', feat, 'reused_buffer'))
+        r = call(m.get_features, buf, ch)
+        f = {'route': 'get_features', 'store': feat, 'reused_buffer': True}
+        req = {'spike_ids': buf.tolist(), 'channel_ids': ch.tolist(), 'call': q}
+        if not r.ok:
+            ctx.violation('raised', dict(desc, request=req), 'get_features raised %r' % r.exc, dict(f, exc=r.exc_name), tb=r.tb)
+            break
+        out = np.asarray(r.value)
+        for i, s in enumerate(buf.tolist()):
+            if rowpos is not None and s not in rowpos:
+                continue
+            row = rowpos[s] if rowpos is not None else s
+            cols = spec.pc_feature_ind[st[s]].astype(np.int64) if spec.pc_feature_ind is not None else np.arange(nloc)
+            e = np.zeros((nc, npcs))
+            for kk, c in enumerate(cols.tolist()):
+                if 0 <= c < nc and (cols == c).sum() == 1:
+                    e[c] = F[row, :, kk]
+            if out.shape != (k, nc, npcs) or not np.array_equal(out[i].astype(np.float64), e):
+                ctx.violation('densify_mismatch', dict(desc, request=req),
+                              'get_features on a refilled id buffer (call %d): spike %d differs from the stored values' % (q, s), f)
+                break
     ctx.sample({'spec': spec.describe()}, every=23)
 
 
